@@ -29,6 +29,19 @@ class DecArg(Arg):
         return base
 
 
+class NumArg(Arg):
+    """a Python number: ints, floats of every magnitude (also those whose repr uses exponent notation), Decimals"""
+
+    def __init__(self, name):
+        self.name = name
+
+    def samples(self, rng, n):
+        base = [0, 1, -1, 10 ** 20, -7, 0.5, 2.5, 1e16, -2.5e17, 1e22, 123456789.125, 3.0, 1e15, 9007199254740993.0, D("12.50"), D("-3"), 1.0, 1e300]
+        for _ in range(n):
+            base.append(rng.choice([rng.randint(-10 ** 12, 10 ** 12), rng.uniform(1, 1e20), float(rng.randint(1, 10 ** 18)), rng.randint(1, 999) * 10.0 ** rng.randint(0, 25)]))
+        return base
+
+
 SCALEQ = OptArg(OneOfArg("scale", [D("0.1"), D("0.01"), D("0.001"), D("0.0001"), D("0.00001")]))
 
 
@@ -112,4 +125,15 @@ CONTRACTS = [
              kf=[("KF-C11-decimal-exponent", "not value.is_finite() or 'E' in str(value)")],
              ensures=[("roundtrip", "spec.ofxtypes.same_decimal(result, value)")],
              native_only=True, samples=3000, props=["C10"]),
+    # 10 (N) numbers given as int / float / Decimal (default dispatch and the Decimal arm): the instance holds exactly the
+    #     number's value, and what is written for it is plain decimal notation denoting that value
+    Contract("ofxtools.Types:Decimal.convert",
+             args=[dinst(), NumArg("value")],
+             call=lambda it, fn, a: (lambda v: (v, a[0].unconvert(v)))(a[0].convert(a[1])),
+             requires=["self.scale is None"],
+             kf=[("KF-C11-decimal-exponent", "'E' in str(__import__('decimal').Decimal(value))")],
+             ensures=[("exact-value", "__import__('fractions').Fraction(result[0]) == __import__('fractions').Fraction(value)"),
+                      ("C11-plain", "spec.ofxtypes.is_plain_decimal_lexical(result[1])"),
+                      ("written-denotes-the-value", "__import__('fractions').Fraction(spec.ofxtypes.parse_decimal(result[1])) == __import__('fractions').Fraction(value)")],
+             native_only=True, samples=600, props=["C10", "C11"]),
 ]
